@@ -124,11 +124,11 @@ def gen_cases(rng, tier):
 
 def expected_in(case, tc):
     n = 0
-    for rid in case["in"]:
+    for rid in G.eff_in(case):
         n += 1
         if G.verdict_of(tc, "in", rid) in ("r", "f"):
             break
-    return case["in"][:n]
+    return G.eff_in(case)[:n]
 
 
 def turn_oracle(case, tc, to, after_fault):
@@ -152,8 +152,8 @@ def turn_oracle(case, tc, to, after_fault):
         if rail_fault[0][1] == "in" and any(s[0] == "llm" for s in steps):
             return f"[fault-llm] input rail {rail_fault[0][2]} raised on the user message, yet {[s[1] for s in steps if s[0] == 'llm']} ran on it"
     # "never the unchecked LLM text" (also after a dialog / retrieval action fault)
-    if carries_llm_text and out_ids != case["out"]:
-        return f"[unchecked-text] the reply carries the LLM text but only output rails {out_ids} of {case['out']} ran on it"
+    if carries_llm_text and out_ids != G.eff_out(case):
+        return f"[unchecked-text] the reply carries the LLM text but only output rails {out_ids} of {G.eff_out(case)} ran on it"
     # "the next turn is processed with all rails active"
     if after_fault:
         ids = [s[2] for s in steps if s[0] == "rail" and s[1] == "in"]
